@@ -3,7 +3,7 @@
    followed by Print Assumptions.  The model [merge] (M_Merge) is tied to profile.Merge of /repo's
    current tree by the correspondence check on full result dumps (R_C03). *)
 From Coq Require Import List ZArith String Bool Permutation.
-From PV Require Import M_Merge S_Merge L_Assoc L_Merge L_SampleKey.
+From PV Require Import M_Merge S_Merge L_Assoc L_Merge L_SampleKey L_Compact.
 Import ListNotations.
 Open Scope Z_scope.
 
@@ -107,18 +107,13 @@ Theorem remerge_terminates : forall ps, Forall vals_ok ps -> merge ps <> MFuel.
 Proof. exact remerge_terminates_lemma. Qed.
 Print Assumptions remerge_terminates.
 
-(* -- compacting twice equals compacting once.  Full statement (equality of the dumps); proved
-   part: the second compaction succeeds in one pass, keeps every weight, the header and
-   distinctness.  Equality of ids and order is covered by the evaluated checker (every case
-   re-compacts the implementation's result and compares the dumps). -- *)
-Definition full_statement_compact_idempotent : Prop :=
-  forall ps q, Forall vals_ok ps -> merge ps = MOk q -> compact q = MOk q.
-Theorem compact_idempotent_partial : forall ps q,
-  Forall vals_ok ps -> merge ps = MOk q ->
-  exists q', compact q = MOk q' /\ (forall k j, eq64 (wt q' k j) (wt q k j)) /\ hdr q' = hdr q /\
-             NoDup (map (sample_ident_of q') (p_sample q')).
-Proof. exact compact_idempotent_partial_lemma. Qed.
-Print Assumptions compact_idempotent_partial.
+(* -- compacting twice equals compacting once: Compact (= Merge of the singleton list) returns a
+   merge result unchanged -- same entities under the same ids in the same order, same samples, same
+   header.  (Proof: every merge state numbers its entities in order of first use; replaying such a
+   profile re-creates each entity under its own id, L_Compact.) -- *)
+Theorem compact_idempotent : forall ps q, merge ps = MOk q -> compact q = MOk q.
+Proof. exact compact_idempotent_lemma. Qed.
+Print Assumptions compact_idempotent.
 
 (* -- the model compares sample keys as tuples, the Go code as varint byte strings: the byte
    encoding (compared with the real sampleKey byte for byte on every run) is injective on keys whose
